@@ -233,3 +233,16 @@ def small_trees(max_nodes, keys=("a", "b"), leaves=("v", 0, None)):
             if t[0] == "d":
                 seen.append(build(t))
     return seen
+
+
+def valid_pos(tree, pos):
+    """pos addresses a node through dict keys and list indexes only"""
+    cur = tree
+    for s in pos:
+        if isinstance(cur, dict) and isinstance(s, str) and s in cur:
+            cur = cur[s]
+        elif isinstance(cur, list) and isinstance(s, int) and -len(cur) <= s < len(cur):
+            cur = cur[s]
+        else:
+            return False
+    return True
